@@ -36,7 +36,7 @@ type sweepRes struct {
 }
 
 func watchableSweep(r *vkit.Report) {
-	perVariant := map[string]int{"VVS": scale4(r, 15, 30, 50, 60), "VVS-unset": scale4(r, 4, 6, 20, 20), "VSS": scale4(r, 4, 6, 20, 20), "SSS": scale4(r, 4, 60, 30, 120)}
+	perVariant := map[string]int{"VVS": scale4(r, 12, 30, 50, 60), "VVS-unset": scale4(r, 4, 6, 20, 20), "VSS": scale4(r, 4, 6, 20, 20), "SSS": scale4(r, 4, 40, 30, 120)}
 	order := []string{"VVS", "VVS-unset", "VSS", "SSS"}
 	if runtime.GOMAXPROCS(0) < 4 {
 		// without three processors the parties cannot be released together: a short run only
